@@ -31,7 +31,7 @@ EXPLANATION = ("over the functional postconditions of the map builder and the wa
 def obligations(ctx):
     obs = ctx.verify(FUNCTIONS)
     obs = [o for o in obs if "citation" not in o.name]
-    return obs + census(ctx) + lemmas(ctx)
+    return obs + ctx.part(census) + ctx.part(lemmas)
 
 
 def census(ctx):
